@@ -268,6 +268,72 @@ func checkC16(c *Ctx) {
 		})
 	}
 
+	// modifiers (^ inverse, * transitive) are single optional suffixes: a class that contains them may only occur under `?`
+	for _, rl := range g.Rules {
+		var visit func(e *pegExpr, under string)
+		visit = func(e *pegExpr, under string) {
+			if e.Kind == "class" && (containsRune(e.Chars, '^') || containsRune(e.Chars, '*')) {
+				r.Check(under == "opt", "C16.X4", "grammar#modifier-multiplicity:"+rl.Name, p.Pos(e.Pos), "the modifier class occurs under `?`: at most one modifier per step", "the modifier class occurs under `"+map[string]string{"star": "*", "plus": "+", "": "(none)"}[under]+"`: repeated or mandatory modifiers such as a.b^^ are accepted or required, which the documented grammar does not allow")
+			}
+			u := under
+			switch e.Kind {
+			case "opt", "star", "plus":
+				u = e.Kind
+			case "seq", "choice":
+				u = ""
+			}
+			for _, k := range e.Kids {
+				visit(k, u)
+			}
+		}
+		visit(rl.Expr, "")
+	}
+
+	// ---- X6: the path parser is a function of its argument: no package-level state is written in its reach
+	r.Rule("C16.X6", "the result of parsing a path depends only on the string: no package-level state is written in reach of the path parser (outside the generated parser's pool)", 1)
+	var pathEntry *ssa.Function
+	for _, fn := range p.ExportedFuncs("internal/parser/path") {
+		if isGeneratedParserFunc(p, fn) {
+			continue
+		}
+		// the function that calls the generated Parse
+		for _, b := range fn.Blocks {
+			for _, ins := range b.Instrs {
+				if ci, ok := ins.(ssa.CallInstruction); ok && ci.Common().StaticCallee() == parseFn && parseFn != nil {
+					pathEntry = fn
+				}
+			}
+		}
+	}
+	if pathEntry == nil {
+		r.Unknown("C16.X6", "path-entry", "", "the function that calls the generated parser was not found")
+	} else {
+		preach := p.Reach(pathEntry)
+		var pfuncs []*ssa.Function
+		for f := range preach {
+			if !isGeneratedParserFunc(p, f) {
+				pfuncs = append(pfuncs, f)
+			}
+		}
+		sort.Slice(pfuncs, func(i, j int) bool { return FuncKey(pfuncs[i]) < FuncKey(pfuncs[j]) })
+		ms := newMutationSummary(p)
+		var stateful []string
+		for _, gl := range moduleGlobals(p) {
+			for _, a := range accessesOf(p, ms, gl, pfuncs) {
+				switch a.Kind {
+				case "write", "alias-mutation", "sync-write", "address-escapes":
+					stateful = append(stateful, fmt.Sprintf("%s: %s (%s) at %s", globalKey(gl), FuncKey(a.Fn), a.Detail, p.Pos(a.Instr.Pos())))
+				case "atomic":
+					if !strings.Contains(a.Detail, ".Load") {
+						stateful = append(stateful, fmt.Sprintf("%s: %s (%s) at %s", globalKey(gl), FuncKey(a.Fn), a.Detail, p.Pos(a.Instr.Pos())))
+					}
+				}
+			}
+		}
+		sort.Strings(stateful)
+		r.Check(len(stateful) == 0, "C16.X6", FuncKey(pathEntry), p.Pos(pathEntry.Pos()), fmt.Sprintf("%d hand-written functions in reach: none writes package-level state", len(pfuncs)), "package-level state is written while parsing a path, so whether and how a string is accepted can depend on earlier calls: "+strings.Join(stateful, "; "))
+	}
+
 	// ---- X5
 	c16SourceAgreement(c, g)
 }
@@ -369,4 +435,13 @@ func c16SourceAgreement(c *Ctx, g *pegGrammar) {
 	}
 	sort.Strings(extra)
 	r.Check(len(extra) == 0, "C16.X5", "classes-reverse", "third_party/propertyparser.peg", "every character class of the grammar source is in the table", "character classes in the grammar source that the generated table lacks: "+strings.Join(extra, ", "))
+}
+
+func containsRune(rs []rune, r rune) bool {
+	for _, x := range rs {
+		if x == r {
+			return true
+		}
+	}
+	return false
 }
